@@ -782,7 +782,20 @@ pub fn run_session(s: &Session, keep_log: bool) -> History {
     pipe.close_input();
     core.free_run();
     pipe.wake();
-    let patience = if h.main_final == "Parked@idle" && h.unread_input > 0 && h.stall.is_none() {
+    let unanswered = {
+        let answered = h.responses();
+        h.events
+            .iter()
+            .filter(|e| match e {
+                Ev::Sent { op, .. } => match &s.ops[*op].op {
+                    Op::Request { id, .. } => !answered.contains_key(id),
+                    _ => false,
+                },
+                _ => false,
+            })
+            .count()
+    };
+    let patience = if h.main_final == "Parked@idle" && unanswered > 0 && h.stall.is_none() {
         // the main loop has stopped reading; end of input will not reach it either
         2
     } else if h.deadlock.is_some() && h.stall.is_none() {
